@@ -23,8 +23,18 @@ import (
 func respell(t *rapid.T, q string) (string, bool) {
 	rs := []rune(q)
 	nonASCII := false
+	// mode 0: every rune may change; 1: sparse - about one rune in four (a spelling with a single
+	// odd letter and no capital anywhere else); 2: only non-ASCII runes change (title-case digraphs,
+	// Roman numerals, Greek title-case letters: cased, but not in category Lu)
+	mode := rapid.IntRange(0, 2).Draw(t, "respell-mode")
 	for i, r := range rs {
 		if !gen.OrbitRegular(r) {
+			continue
+		}
+		if mode == 1 && rapid.IntRange(0, 3).Draw(t, "respell-here") != 0 {
+			continue
+		}
+		if mode == 2 && r < 128 {
 			continue
 		}
 		orbit := []rune{r}
@@ -66,6 +76,21 @@ func TestC20_Engine(t *testing.T) {
 			db = gen.Load(t, cmds)
 			withEmb = false
 			q, qc = alias, "terse-alias"
+		}
+		if len(cmds) > 0 && rapid.IntRange(0, 7).Draw(t, "cased-non-capital") == 0 {
+			// a word of letters that have case forms outside category Lu (title-case digraphs, Roman
+			// numerals, Greek title-case letters) in one entry next to an ordinary word of the query:
+			// every stage that reads the query (index, re-ranker, word tables) must fold them alike
+			special := rapid.StringOfN(rapid.RuneFrom([]rune{'ǆ', 'ǉ', 'ǌ', 'ǳ', 'ⅻ', 'ⅰ', 'ⅿ', 'ᾀ', 'ᾐ', 'e', 'p', 'o'}), 2, 4, -1).Draw(t, "special-word")
+			i := rapid.IntRange(0, len(cmds)-1).Draw(t, "special-in")
+			cp := cmds[i]
+			cp.Description = strings.TrimSpace(cp.Description + " " + special + " pockets")
+			cmds = append(append([]database.Command{}, cmds...), cp)
+			db = gen.Load(t, cmds)
+			withEmb = false
+			fs := strings.Fields(strings.ToLower(cp.Command + " " + cp.Description))
+			q = fs[rapid.IntRange(0, len(fs)-1).Draw(t, "special-with")] + " " + special
+			qc = "cased-non-capital"
 		}
 		if rapid.IntRange(0, 7).Draw(t, "hostile-k") == 0 {
 			q += " kill Kelvin ok"
